@@ -17,7 +17,7 @@ def cls(reason):
 def tick(tag, reason):
     try:
         fd = os.open(tag, os.O_WRONLY | os.O_APPEND | os.O_CREAT, 0o644)
-        os.write(fd, b'T1\n' if reason else b'T0\n')
+        os.write(fd, ('T1 %s\n' % (reason[:120],)).encode() if reason else b'T0\n')
         os.close(fd)
     except Exception:
         pass
